@@ -102,7 +102,7 @@ Definition ret_shown (st : state) : bool :=
 
 Definition under (labels : list text) : text -> bool := fun l => existsb (text_eqb l) labels.
 
-Definition if_in (labels : list text) (l : text) (n : nat) : nat := if under labels l then n else 0.
+Definition if_in (p : text -> bool) (l : text) (n : nat) : nat := if p l then n else 0.
 
 Definition note_label (st : state) : text := match st_notes st with [_] => T "Note" | _ => T "Notes" end.
 Definition author_label (st : state) : text := match st_authors st with [_] => T "Author" | _ => T "Authors" end.
@@ -120,10 +120,29 @@ Lemma match_single_map : forall {X Y Z} (f : X -> Y) (l : list X) (a b : Z),
   match map f l with [_] => a | _ => b end = match l with [_] => a | _ => b end.
 Proof. intros X Y Z f [|x [|y l]] a b; reflexivity. Qed.
 
+Lemma rows_occ_one : forall i r, rows_occ i [r] = body_occ i (row_body r) + type_occ i (row_type r).
+Proof. intros. unfold rows_occ, row_occ. cbn. lia. Qed.
+
+Lemma rows_occ_raises : forall i (l : list (tyref * nat)),
+  rows_occ i (map (fun e => {| row_name := None; row_type := Some (fst e); row_body := Some (snd e) |}) l)
+  = list_sum (map (fun e => body_occ i (Some (snd e)) + type_occ i (Some (fst e))) l).
+Proof. intros. unfold rows_occ. rewrite map_map. reflexivity. Qed.
+
+Lemma rows_occ_warns : forall i (l : list (option tyref * nat)),
+  rows_occ i (map (fun e => {| row_name := None; row_type := fst e; row_body := Some (snd e) |}) l)
+  = list_sum (map (fun e => body_occ i (Some (snd e)) + type_occ i (fst e)) l).
+Proof. intros. unfold rows_occ. rewrite map_map. reflexivity. Qed.
+
+Lemma secs_occ_nil : forall p i, secs_occ p i [] = 0.
+Proof. reflexivity. Qed.
+
+Lemma if_same : forall (c : bool) (x : nat), (if c then x else x) = x.
+Proof. intros [|] x; reflexivity. Qed.
+
 Ltac fold_T s := let x := eval vm_compute in (T s) in change x with (T s).
 
-Theorem format_occurrences : forall st i labels,
-  secs_occ (under labels) i (format st) =
+Theorem format_occurrences : forall st i (labels : text -> bool),
+  secs_occ labels i (format st) =
     if_in labels (T "Parameters") (if params_shown st then pds_occ i (st_pdescs st) else 0) +
     if_in labels (T "Returns") (if ret_shown st then ret_occ i st else 0) +
     if_in labels (T "Yields") (yld_occ i st) +
@@ -133,7 +152,7 @@ Theorem format_occurrences : forall st i labels,
     if_in labels (T "See Also") (idx_occ i (st_seealsos st)) +
     if_in labels (T "Present Since") (idx_occ i (st_sinces st)) +
     if_in labels (note_label st) (idx_occ i (st_notes st)) +
-    unknowns_occ (fun tag => under labels (T "Unknown Field: " ++ tag)) i (st_unknowns st).
+    unknowns_occ (fun tag => labels (T "Unknown Field: " ++ tag)) i (st_unknowns st).
 Proof.
   intros st i labels. unfold format, format_plan.
   cbn [format_plan_run emit pe_kind pe_bucket pe_label pe_plural].
@@ -143,18 +162,15 @@ Proof.
   cbn [desc_rows]. rewrite !match_single_map.
   fold (author_label st). fold (note_label st).
   unfold params_shown, ret_shown, if_in.
-  assert (Hsee : forall (l : list nat), match l with [] | _ => T "See Also" end = T "See Also") by (intros [|? ?]; reflexivity).
-  assert (Hsince : forall (l : list nat), match l with [] | _ => T "Present Since" end = T "Present Since")
-    by (intros [|? ?]; reflexivity).
+  assert (Hsee : forall (l : list nat) (a : text), match l with [_] => a | _ => a end = a)
+    by (intros [|? [|? ?]] a; reflexivity).
   unfold ret_occ, yld_occ, raises_occ, warns_occ.
+  unfold params_shown.
   destruct (existsb pdesc_documented (st_pdescs st)) eqn:EP; cbn [orb];
     destruct (st_ret st) as [r|] eqn:ER; try destruct (ret_documented r) eqn:ED;
-    rewrite ?app_nil_r, ?secs_occ_app, ?secs_occ_sec, ?secs_occ_unknowns, ?rows_occ_pdescs, ?rows_occ_map_idx;
-    cbn [secs_occ map list_sum rows_occ row_occ row_body row_type];
-    repeat match goal with |- context [rows_occ i (map ?f ?l)] =>
-      replace (rows_occ i (map f l)) with (list_sum (map (fun e => row_occ i (f e)) l))
-        by (unfold rows_occ; rewrite map_map; reflexivity) end;
-    cbn [row_occ row_body row_type];
-    destruct (st_yld st) as [y|]; cbn [map list_sum rows_occ row_occ row_body row_type];
-    repeat match goal with |- context [if ?c then _ else _] => destruct c end; lia.
+    rewrite ?app_nil_r, ?secs_occ_app, ?secs_occ_sec, ?secs_occ_unknowns, ?rows_occ_pdescs, ?rows_occ_map_idx,
+            ?Hsee, ?secs_occ_nil, ?rows_occ_one, ?rows_occ_raises, ?rows_occ_warns;
+    cbn [row_body row_type secs_occ map list_sum];
+    (destruct (st_yld st) as [y|]; [rewrite rows_occ_one | cbn [rows_occ map list_sum]]);
+    cbn [row_body row_type]; rewrite ?if_same; lia.
 Qed.
